@@ -316,5 +316,13 @@ def _sub_after(c, st, idx):
     return None
 
 
+def _sub_oracle(self, indices, result):
+    from props.c06 import spec_sub_mesh
+    from specs import core as S
+
+    return S.to_spec(result) == spec_sub_mesh(S.to_spec(self), list(indices))
+
+
+SubMeshPattern.runtime_oracle = staticmethod(_sub_oracle)
 SubMeshPattern.ensures_locals = staticmethod(_sub_locals)
 SubMeshPattern.after_stmt = staticmethod(_sub_after)
